@@ -295,4 +295,46 @@ def idemGo (pref : List (Str × Str)) : FSt → Bool → List XEv → Bool
 
 def idemOK (pref : List (Str × Str)) (xs : List XEv) : Bool := idemGo pref FSt.init false xs
 
+/-! ### the text-level hypotheses, stated on the input
+
+`docTextOK` and `repMarkup` speak about the flattener's output.  On the input
+they amount to: the names, prefixes and namespace URIs of the stream can be
+written (`evTxt`), and the stream with every name replaced by a fixed one and
+the namespace events removed (`skeleton`) is text-expressible and representable. -/
+
+def nameTxt (rep : Char → Bool) (n : Str) : Bool := Reader.validName n && n.all rep
+
+def prefixTxt (rep : Char → Bool) (p : Str) : Bool := p.isEmpty || nameTxt rep p
+
+/-- a namespace URI as the value of an `xmlns` attribute -/
+def uriTxt (u : Str) : Bool := attrValOK u
+
+def qnameTxt (rep : Char → Bool) (q : QName) : Bool := nameTxt rep q.loc && uriTxt q.ns
+
+def attrsTxt (rep : Char → Bool) (a : AttrList) : Bool := a.all fun x => qnameTxt rep x.1 && attrValOK x.2
+
+def prefTxt (rep : Char → Bool) (pref : List (Str × Str)) : Bool := pref.all fun e => prefixTxt rep e.2
+
+def evTxt (rep : Char → Bool) : XEv → Bool
+  | .ev (.start t a) => qnameTxt rep t && attrsTxt rep a
+  | .empty t a => qnameTxt rep t && attrsTxt rep a
+  | .ev (.end_ t) => qnameTxt rep t
+  | .ev (.startNs p u) => prefixTxt rep p && uriTxt u
+  | _ => true
+
+def dummyName : Str := ['x']
+
+def skeleton : List XEv → List FEv
+  | [] => []
+  | .ev (.start _ _) :: xs => .start dummyName [] :: skeleton xs
+  | .empty _ _ :: xs => .empty dummyName [] :: skeleton xs
+  | .ev (.end_ _) :: xs => .end_ dummyName :: skeleton xs
+  | .ev (.startNs _ _) :: xs => skeleton xs
+  | .ev (.endNs _) :: xs => skeleton xs
+  | .ev e :: xs => .other e :: skeleton xs
+
+/-- the input-side form of `docTextOK ∧ repMarkup` -/
+def inputTextOK (rep : Char → Bool) (pref : List (Str × Str)) (xs : List XEv) : Bool :=
+  prefTxt rep pref && xs.all (evTxt rep) && docTextOK (skeleton xs) && repMarkup rep (skeleton xs)
+
 end Genshi.Xml
